@@ -11,6 +11,7 @@ from .. import core, refcodec as rc
 from ..core import Result, Violation
 from ..world import World, Peer
 
+import aiocoap
 from aiocoap import Message, GET, NON, CON, error, resource
 from aiocoap.numbers import constants
 
@@ -296,6 +297,61 @@ def run_behind_unacked(res, cell):
         res.transitions += 2
         res.outcomes.add(core.digest(("behind", got)))
         res.signatures.add(core.digest(("behind", cell)))
+    finally:
+        w.dispose()
+
+
+UNSENDABLE = {
+    "ok": lambda: Message(payload=b"r"),
+    "strpayload": lambda: Message(payload="text"),
+    "intpayload": lambda: Message(payload=5),
+    "longetag": lambda: Message(payload=b"r", etag=b"0123456789"),
+    "negmaxage": lambda: Message(payload=b"r", max_age=-7),
+    "byteslocpath": lambda: Message(code=aiocoap.CREATED, location_path=(b"created", b"1")),
+    "hugeobserve": lambda: Message(payload=b"r", observe=1 << 70),
+}
+
+
+def run_unsendable(res, what, dur, t):
+    """The handler's answer cannot be put on the wire (whatever serialising it raises).  The confirmable request is still
+    acknowledged exactly once under its message ID - by whatever carries the error response or by an empty ACK - and is never
+    answered with a Reset; a non-confirmable request is never acknowledged."""
+    w = World()
+    try:
+        class R(resource.Resource):
+            async def render_get(self, request):
+                if DUR[dur]:
+                    await asyncio.sleep(DUR[dur])
+                return UNSENDABLE[what]()
+        site = resource.Site()
+        site.add_resource(["u"], R())
+        node = w.add_context("node", *NODE, site=site)
+        w.add_peer(AutoAck("peer", *PEER))
+        w.loop.settle()
+        w.pool.clear()
+        t0 = w.loop.time()
+        mid = 0x4004
+        token = b"\xb7"
+        w.inject(PEER, NODE, rc.encode((t, 1, mid, token, [(11, b"u")], b"")), local_ip=LOCALS["uni"])
+        w.loop.advance_to(t0 + 1.0)
+        replies = [rc.decode(dg.data, check_formats=False) for dg in w.sent if dg.src == NODE]
+        acks = [m for m in replies if m[0] == rc.ACK and m[2] == mid]
+        rsts = [m for m in replies if m[0] == rc.RST and m[2] == mid]
+        finals = [m for m in replies if m[1] >= 64 and m[3] == token]
+        got = {"acks_for_the_request": len(acks), "resets_for_the_request": len(rsts), "responses": len(finals) > 0}
+        want = {"acks_for_the_request": 1 if t == rc.CON else 0, "resets_for_the_request": 0, "responses": True}
+        case = {"unsendable": [what, dur, t]}
+        res.evaluations += 1
+        res.traces += 1
+        if got != want:
+            res.violate(Violation("request-acknowledged-exactly-once", want, got, "messagemanager.py:send_message", case, trace=w.trace[-20:],
+                                  key="unsendable/%s/%d" % ("bad" if what != "ok" else "ok", t)))
+        for msg, e in w.loop_exceptions():
+            res.violate(Violation("loop-exception", "none", core.exc_desc(e) if e else msg, core.site_of(e) if e else "loop", case, key="loop"))
+        res.states.add(core.digest(("unsendable", what, dur, t, str(got))))
+        res.transitions += 1
+        res.outcomes.add(core.digest(("unsendable", str(got))))
+        res.signatures.add(core.digest(("unsendable", what, dur, t)))
     finally:
         w.dispose()
 
@@ -865,6 +921,10 @@ def job(arg):
         for dst in ("ff02::fd", "::ffff:224.0.1.187"):
             for late_type in ("CON", "NON"):
                 run_multicast_given_up(res, dst, late_type)
+        for what in UNSENDABLE:
+            for dur in DUR:
+                for t in (rc.CON, rc.NON):
+                    run_unsendable(res, what, dur, t)
         res.sample({"behind_unacked_separate_response": list(items[0])})
     return res
 
@@ -942,6 +1002,8 @@ def replay(case, scenario, seed):
         run_multicast_given_up(res, *case["multicast_given_up"])
     elif "proxy" in case:
         run_proxy(res, *case["proxy"])
+    elif "unsendable" in case:
+        run_unsendable(res, *case["unsendable"])
     elif "role_reversal" in case:
         run_role_reversal(res, case["role_reversal"][0], CON if case["role_reversal"][1] == int(CON) else NON)
     elif "other_port" in case:
